@@ -230,6 +230,9 @@ def project_grid_case(kind, method, antialias, seed, with_holes, extra):
     with warnings.catch_warnings():
         warnings.simplefilter("ignore")
         extra = dict(extra)
+        if extra.pop("layout", "C") == "F":
+            # the same grid with its values stored the other way round (what .transpose() of an easting-first grid gives)
+            grid = grid.copy(data=np.asfortranarray(grid.values))
         if isinstance(extra.get("region"), str):
             pe, pn = proj(E, N)
             w, e_, s_, n_ = float(pe.min()), float(pe.max()), float(pn.min()), float(pn.max())
@@ -257,6 +260,7 @@ class ProjectGridCase(Contract):
                 for antialias in (False, True):
                     for _ in range(2 if tier == "thorough" else 1):
                         yield (kind, method, antialias, rng.randint(0, 9999), rng.random() < 0.4, rng.choice([{}, {"shape": (7, 9)}, {"spacing": 0.9}])), {}
+                    yield (kind, method, antialias, rng.randint(0, 9999), rng.choice([False, "corner"]), {"layout": "F"}), {}
                     # a requested region that differs from the bounding box of the projected data (with / without a shape)
                     yield (kind, method, antialias, rng.randint(0, 9999), False, rng.choice([{"region": "inner"}, {"region": "outer"}, {"region": "inner", "shape": (6, 8)}])), {}
                     # holes that change the hull of the data (border holes), where an extrapolating method would fill the gap
@@ -284,6 +288,8 @@ class ProjectGridCase(Contract):
             region = (w + f * (e_ - w), e_ - 0.5 * f * (e_ - w), s_ + 0.7 * f * (n_ - s_), n_ - f * (n_ - s_))
         oe, on = out.coords["easting"].values, out.coords["northing"].values
         res["regular_grid_of_the_projected_region"] = bool(np.isclose(oe[0], region[0]) and np.isclose(on[0], region[2]) and np.allclose(np.diff(oe), np.diff(oe)[0]) and np.allclose(np.diff(on), np.diff(on)[0]) and oe[-1] <= region[1] + 1e-9 * abs(region[1]) + 1e-9 and on[-1] <= region[3] + 1e-9 * abs(region[3]) + 1e-9)
+        if "layout" in a.extra:
+            pass
         if "shape" in a.extra:
             res["requested_shape"] = out.shape == tuple(a.extra["shape"])
         elif "spacing" not in a.extra:
@@ -313,7 +319,7 @@ class ProjectGridCase(Contract):
         finite = np.asarray(out.values)[~np.isnan(out.values)]
         if a.antialias and a.method in ("linear", "nearest") and finite.size:
             res["antialiased_values_stay_within_the_input_range"] = bool(finite.min() >= vmin - 1e-9 * (abs(vmin) + 1) and finite.max() <= vmax + 1e-9 * (abs(vmax) + 1))
-        if (not a.antialias) and a.kind == "affine" and a.method in ("linear", "cubic") and not a.with_holes and not a.extra:
+        if (not a.antialias) and a.kind == "affine" and a.method in ("linear", "cubic") and not a.with_holes and not (set(a.extra) - {"layout"}):
             # an affine map sends the regular input grid onto the regular output grid: original values reproduced at the nodes
             want = np.asarray(grid.values)
             res["affine_projection_reproduces_the_values_at_the_projected_nodes"] = bool(np.allclose(np.asarray(out.values)[1:-1, 1:-1], want[1:-1, 1:-1], rtol=1e-6, atol=1e-8))
